@@ -214,3 +214,12 @@ reg('C26', engine='pysym + llsym',
     note='Trusted: the rely condition printed in the evidence, atomicity of dict/lock primitives, lock fairness for '
          'termination. One tag; tags with re-entrant __eq__ not covered.',
     technique='rely/guarantee symbolic execution of one thread against a havocking environment, SMT-guided path forking (z3)')
+
+reg('C11', engine='pysym + llsym',
+    text='Partial: the serialisation codec of out-of-line ABI modules. The Python encoder (byte expressions taken from the '
+         'AST of format_four_bytes, as_python_bytes on symbolic op/arg) and the C decoder (cdl_4bytes/cdl_opcode, IR) are '
+         'proved inverse for every opcode the generator can emit; integer constants survive ffiobj_init -> '
+         '_cdl_realize_global_int -> realize_global_int for every Python int in [-2**63, 2**64).',
+    note='Trusted: pysym/llsym semantics, CPython contracts. Whole-module equivalence (types, functions, globals through '
+         'the import machinery) is NOT decided.',
+    technique='symbolic execution via proxy values (Python AST) and of LLVM IR (C), SMT (z3 bit-vectors)')
